@@ -62,6 +62,131 @@ def _ctor_call(f) -> Optional[ast.Call]:
 
 
 def _arrange(ck: Checker, prog: Program):
+    try:
+        _arrange_table(ck, prog)
+    except AnalysisError as e:
+        ck.note(f"_arrange_traces: table form not applicable ({e}); using the statement forms")
+        _arrange_forms(ck, prog)
+        return
+    _arrange_callers(ck, prog)
+
+
+def _arrange_table(ck: Checker, prog: Program):
+    """_arrange_traces as a decision table of one pass of its loop over the finite worlds (last letter of the channel name,
+    which components were already found): letter N / E / Z with its slot free -> that slot of the returned (ns, ew, vt)
+    receives TimeSeries.from_trace(trace) and the slot is marked taken; slot taken or any other letter -> raise."""
+    from ..pathtable import PathTable
+    import itertools as _it
+    f = prog.func("data_wrangler._arrange_traces")
+    q = f.qualname
+    loops = [st for st in f.node.body if isinstance(st, ast.For)]
+    if len(loops) != 1 or unparse(loops[0].iter) != f.params[0] or not isinstance(loops[0].target, ast.Name) or loops[0].orelse:
+        raise AnalysisError(f"{q}: loop over the traces not found")
+    lp = loops[0]
+    rets = [r for r in own_nodes(f.node) if isinstance(r, ast.Return)]
+    if len(rets) != 1 or not isinstance(rets[0].value, ast.Tuple) or len(rets[0].value.elts) != 3 or not all(isinstance(e, ast.Name) for e in rets[0].value.elts):
+        raise AnalysisError(f"{q}: the routine does not return three named components")
+    slots = [e.id for e in rets[0].value.elts]          # callers unpack (ns, ew, vt)
+    TR = sp.Symbol("<trace>", real=True)
+    leaves = PathTable(prog, f.module, env={lp.target.id: TR}, structured=True).leaves(lp.body)
+    CH = sp.Function("attr_channel")(sp.Function("attr_meta")(TR))
+    fn = lambda e: getattr(getattr(e, "func", None), "__name__", "")   # noqa: E731
+    gi = sp.Function("getitem")
+    flags = set()
+    for l in leaves:
+        for c, _t in l.conds:
+            flags |= {a for a in c.atoms(sp.Symbol) if a != TR and not a.name.startswith("'")}
+
+    def ev(e, letter, fl):
+        """truth of a condition in the world (last letter, flag values); None when it mentions anything else"""
+        if e in (sp.true, sp.false):
+            return bool(e)
+        if isinstance(e, sp.Not):
+            v = ev(e.args[0], letter, fl)
+            return None if v is None else not v
+        if isinstance(e, (sp.And, sp.Or)):
+            vs = [ev(a, letter, fl) for a in e.args]
+            if any(v is None for v in vs):
+                return None
+            return all(vs) if isinstance(e, sp.And) else any(vs)
+        if e in fl:
+            return fl[e]
+        if isinstance(e, (sp.Eq, sp.Ne)):
+            a, b = e.lhs, e.rhs
+            val = None
+            if b == sp.true and fn(a) == "truth":
+                val = ev(a.args[0], letter, fl)
+            elif a in fl and b in (sp.true, sp.false):
+                val = fl[a] == bool(b)
+            else:
+                for x, y in ((a, b), (b, a)):
+                    if x in (gi(CH, sp.Integer(-1)), gi(CH, sp.Function("slice")(sp.Integer(-1), sp.Symbol("None"), sp.Symbol("None")))) and y.is_Symbol and y.name.startswith("'"):
+                        val = y.name.strip("'") == letter
+            if val is None:
+                return None
+            return val if isinstance(e, sp.Eq) else not val
+        if fn(e) == "truth":
+            return ev(e.args[0], letter, fl)
+        if fn(e) == "endswith" and e.args[0] == CH and e.args[1].is_Symbol and e.args[1].name.startswith("'"):
+            return letter.endswith(e.args[1].name.strip("'"))
+        return None
+
+    def outcome(letter, fl):
+        live = []
+        for l in leaves:
+            vals = [ev(c, letter, fl) for c, t in l.conds]
+            if any(v is None for v in vals):
+                raise AnalysisError(f"{q}: a condition of the component selection is not about the channel's last letter or a found-flag: {l.cond()}")
+            if all(v == t for v, (c, t) in zip(vals, l.conds)):
+                live.append(l)
+        if len(live) != 1:
+            raise AnalysisError(f"{q}: {len(live)} paths for letter {letter!r}")
+        return live[0]
+    flags = sorted(flags, key=str)
+    if len(flags) > 4:
+        raise AnalysisError(f"{q}: too many state variables in the component selection")
+    want_slot = {"N": 0, "E": 1, "Z": 2}
+    taken_flag = {}
+    problems = []
+    for L, k in want_slot.items():
+        l = outcome(L, {fl: False for fl in flags})
+        if l.exit != "fall":
+            problems.append(f"a first trace whose channel ends in {L!r} is refused")
+            continue
+        assigned = {nm: v for nm, v in l.env.items() if nm != lp.target.id and v == sp.Function("from_trace")(sp.Symbol("TimeSeries", real=True), TR)}
+        if list(assigned) != [slots[k]]:
+            problems.append(f"a trace whose channel ends in {L!r} is stored as {sorted(assigned) or 'nothing'}; the callers unpack position {k} ({('ns', 'ew', 'vt')[k]}) from `{slots[k]}`")
+        became = [fl for fl in flags if l.env.get(fl.name) == sp.true]
+        if len(became) != 1:
+            problems.append(f"letter {L!r}: the slot is not marked as taken")
+        else:
+            taken_flag[L] = became[0]
+    if len(set(taken_flag.values())) != len(taken_flag):
+        problems.append("two letters share one found-flag")
+    if not problems:
+        for L, k in want_slot.items():
+            for vals in _it.product((False, True), repeat=len(flags)):
+                fl = dict(zip(flags, vals))
+                l = outcome(L, fl)
+                if fl[taken_flag[L]] and l.exit != "raise":
+                    problems.append(f"a second trace whose channel ends in {L!r} is accepted")
+                if not fl[taken_flag[L]] and l.exit != "fall":
+                    problems.append(f"a trace whose channel ends in {L!r} is refused although its slot is free")
+        for other in ("X", "1", "H"):
+            for vals in _it.product((False, True), repeat=len(flags)):
+                if outcome(other, dict(zip(flags, vals))).exit != "raise":
+                    problems.append(f"a trace whose channel ends in {other!r} is accepted")
+    if not problems:
+        for sfx, var in (("E", "ew"), ("N", "ns"), ("Z", "vt")):
+            ck.ok("C07.R1", q, f"suffix {sfx!r} -> {var}", detail="selected by the channel name's last letter, once (decision table over letter x found-flags)")
+        ck.ok("C07.R2", q, "anything else raises (missing / duplicate / misnamed component)")
+        ck.ok("C07.R1", q, "returns (ns, ew, vt)")
+    else:
+        for pr in sorted(set(problems))[:3]:
+            ck.violation("C07.R1" if "refused" not in pr and "accepted" not in pr else "C07.R2", q, pr[:90], pr + ": band/instrument letters or trace order could decide the component", loc=f.loc(lp))
+
+
+def _arrange_forms(ck: Checker, prog: Program):
     f = prog.func("data_wrangler._arrange_traces")
     q = f.qualname
     loops = [st for st in f.node.body if isinstance(st, ast.For)]
